@@ -13,19 +13,19 @@ CFG = ("SPECIFICATION Spec\nINVARIANT Agreement\nINVARIANT StrictlyGreater\nINVA
 F0 = dict(major=False, minor=False, patch=False, tag="none", tag_num=False, pin_increments=False, pin_date=False)
 # start versions sit just below a digit boundary (patch 9 -> 10, INC0 9 -> 10, BUILD 1999 -> 22000, MINOR 9 -> 10): orderings by text and by version differ there
 PROJECTS = [
-    dict(pattern="vMAJOR.MINOR.PATCH[-TAG]", v0="v1.2.9-beta", day0=dt.date(2024, 4, 1),
+    dict(pattern="vMAJOR.MINOR.PATCH[-TAG]", v0="v1.2.9-beta", day0=dt.date(2024, 4, 1), partial="series MAJOR.MINOR",
          flags=[dict(F0, patch=True), dict(F0, minor=True), dict(F0, tag="rc"), dict(F0, tag="final"), dict(F0, major=True, tag="alpha"), dict(F0)]),
-    dict(pattern="vYYYY0M.BUILD[-TAG]", v0="v202403.1998-beta", day0=dt.date(2024, 4, 1),
+    dict(pattern="vYYYY0M.BUILD[-TAG]", v0="v202403.1998-beta", day0=dt.date(2024, 4, 1), partial="Copyright (c) 2018-YYYY",
          flags=[dict(F0), dict(F0, tag="rc"), dict(F0, tag="final"), dict(F0, pin_date=True), dict(F0, tag="beta")]),
-    dict(pattern="YYYY.MM.INC0", v0="2024.3.9", day0=dt.date(2024, 4, 1),
+    dict(pattern="YYYY.MM.INC0", v0="2024.3.9", day0=dt.date(2024, 4, 1), partial="docs for YYYY.MM",
          flags=[dict(F0), dict(F0, pin_date=True), dict(F0, pin_increments=True)]),
-    dict(pattern="MAJOR.MINOR[.PATCH[PYTAGNUM]]", v0="1.9", day0=dt.date(2024, 4, 1),
+    dict(pattern="MAJOR.MINOR[.PATCH[PYTAGNUM]]", v0="1.9", day0=dt.date(2024, 4, 1), partial="series MAJOR.MINOR",
          flags=[dict(F0, patch=True), dict(F0, minor=True), dict(F0, tag="beta"), dict(F0, tag_num=True), dict(F0, tag="final"), dict(F0, major=True)]),
 ]
 
 
 def gen_hist(prj, depth, daystep=(0, 1, 40)):
-    return glue.gen_module("Gen_Hist", dict(GenP=glue.parse_pattern(prj["pattern"]), GenV0=glue.cp(prj["v0"]), GenDay0=prj["day0"].toordinal(), GenDayStep=set(daystep),
+    return glue.gen_module("Gen_Hist", dict(GenP=glue.parse_pattern(prj["pattern"]), GenPartial=glue.parse_pattern(prj["partial"], file_pattern=True), GenV0=glue.cp(prj["v0"]), GenDay0=prj["day0"].toordinal(), GenDayStep=set(daystep),
                                             GenToday=drive.TODAY.toordinal(), GenFlagSets=[f for f in prj["flags"]], GenDepth=depth)).replace(
         "GenFlagSets == <<", "GenFlagSets == {").replace(">>\nGenDepth", "}\nGenDepth")
 
@@ -44,7 +44,7 @@ def read_wt(root):
     if second and second.group(1) != cfg:
         cfg = "%s (but the second occurrence in the config file says %s)" % (cfg, second.group(1))
     a = open(os.path.join(root, "a.txt")).read()
-    return {"cfg": cfg, "ver": re.search(r"ver=(\S+)", a).group(1), "pep": re.search(r"pep=(\S*)", a).group(1)}
+    return {"cfg": cfg, "ver": re.search(r"ver=(\S+)", a).group(1), "pep": re.search(r"pep=(\S*)", a).group(1), "part": open(os.path.join(root, "docs.txt")).read().split("\n")[1]}
 
 
 def replay(job):
@@ -65,10 +65,13 @@ def replay(job):
         respell = idx % 3 == 1
         pre = "./" if respell else ""
         proj.write("bumpver.toml", project.bumpver_toml(prj["v0"], prj["pattern"], [(pre + "bumpver.toml", ['current_version = "{version}"'] + (["# release {version}"] if respell else [])),
-                                                                                    (pre + "a.txt", ["ver={version}", "pep={pep440_version}"])],
+                                                                                    (pre + "a.txt", ["ver={version}", "pep={pep440_version}"]),
+                                                                                    ("docs.txt", [prj["partial"]])],       # a file with a PARTIAL pattern only
                                                         commit=True, tag=True, push=False, extra={"tag_scope": ([s["scope"] for s in hist if s["act"] == "update"] or ["default"])[0]})
                    + ("\n# release %s\n" % prj["v0"] if respell else ""))
         proj.write("a.txt", "intro\nver=%s\npep=%s\n" % (prj["v0"], pep0))
+        part0 = v2version.format_version(v2version.parse_version_info(prj["v0"], prj["pattern"]), prj["partial"])
+        proj.write("docs.txt", "documentation\n%s\nend\n" % part0)
         proj.write("other.txt", "tracked, carries no version pattern\n")
         git(root, "add", "-A"); git(root, "commit", "-q", "-m", "init")
         proj.write("untracked.tmp", "never added: must not appear in any bump commit\n")
@@ -85,6 +88,7 @@ def replay(job):
                 if st.get("allow"):
                     args.append("--allow-dirty")
                 head0 = git(root, "rev-parse", "HEAD").strip()
+                prev_wt = read_wt(root)
                 r = drive.cli(args, cwd=root, env=GENV)
                 ok = r.exit == 0
                 exp_wt = {k: txt(v) for k, v in st["wt"].items()}
@@ -112,8 +116,10 @@ def replay(job):
                     if parent != head0:
                         problems.append(("not-exactly-one-commit", head0, parent, head1))
                     names = git(root, "show", "--name-only", "--format=", "HEAD").split()
-                    if sorted(names) != ["a.txt", "bumpver.toml"]:
-                        problems.append(("commit-files", names))
+                    # docs.txt is part of the bump commit exactly when its partial occurrence changed
+                    want = ["a.txt", "bumpver.toml"] + (["docs.txt"] if prev_wt["part"] != exp_wt["part"] else [])
+                    if sorted(names) != sorted(want):
+                        problems.append(("commit-files", names, want))
                     at = git(root, "tag", "--points-at", "HEAD").split()
                     if st["tagit"] and at != [txt(st["new"])]:
                         problems.append(("tag-at-head", at, txt(st["new"])))
@@ -157,7 +163,7 @@ def run(ctx):
         ctx.violation(dict(clause="design:" + res.violation), case=dict(state=res.trace[-2:]), check="design")
     # ---- design + export: simulation over all projects
     depth = ctx.pick(8, 12)
-    n_sim = ctx.pick(6, 60)
+    n_sim = ctx.pick(14, 60)
     jobs = []
     for pi, prj in enumerate(PROJECTS):
         res = tlc.run(tlc.module_text("Bumpver.tla"), CFG % "CONSTRAINT Export\n", name="Bumpver", workers=8, extra_files={"Gen_Hist.tla": gen_hist(prj, depth)}, timeout=ctx.pick(150, 1500),
@@ -173,7 +179,7 @@ def run(ctx):
                     hists.append(h)
         # prefer behaviours with several successful updates and a branch switch
         hists.sort(key=lambda h: -(sum(1 for s in h if s["act"] == "update" and s["ok"]) * 3 + sum(1 for s in h if s["act"] in ("switch", "newbranch"))))
-        for k, h in enumerate(hists[:ctx.pick(15, 400)]):
+        for k, h in enumerate(hists[:ctx.pick(70, 400)]):
             jobs.append((pi, h, len(jobs)))
     n_simulated = len(jobs)
     if n_simulated < 20:
